@@ -157,6 +157,10 @@ fn run_impl(script: &str, files: &[(String, FileSpec)], yash3: bool) -> Result<R
                 std::fs::write(&p, content).map_err(|e| e.to_string())?;
                 std::fs::set_permissions(&p, std::fs::Permissions::from_mode(*mode)).ok();
             }
+            FileSpec::Bytes { content, mode } => {
+                std::fs::write(&p, content).map_err(|e| e.to_string())?;
+                std::fs::set_permissions(&p, std::fs::Permissions::from_mode(*mode)).ok();
+            }
             FileSpec::Dir { mode } => {
                 std::fs::create_dir_all(&p).ok();
                 std::fs::set_permissions(&p, std::fs::Permissions::from_mode(*mode)).ok();
